@@ -27,3 +27,26 @@ def d14_event_in_zero_rate_bin(args, rec):
     if rates is not None:
         return any(float(a) <= 0 for a in _flat(rates))
     return False
+
+
+def mll_sign(args, rec):
+    """MLL statistic has the sign of +2 log[...] (code, unit tests) where theory.rst says -2 log[...]"""
+    msg = ' '.join((rec.get('replay') or {}).get('violated_clauses') or [])
+    return args.get('test') == 'MLL_magnitude_test' and ('sign' in msg.lower() or 'MLL' in msg)
+
+
+def horus_subsecond(args, rec):
+    """ingv_horus drops the hundredths of a second (int(second)); pinned by tests/test_ingv_readers.py::test_cat_horus"""
+    if args.get('fmt') != 'ingv_horus':
+        return False
+    import re
+    msgs = (rec.get('replay') or {}).get('violated_clauses') or []
+    for m in msgs:
+        mm = re.search(r'origin_time (-?\d+) .*required (-?\d+)', m)
+        if not mm:
+            return False
+        got, req = int(mm.group(1)), int(mm.group(2))
+        # only the fractional part is lost: same whole second
+        if not (0 <= req - got < 1000 and got % 1000 == 0):
+            return False
+    return bool(msgs)
